@@ -482,7 +482,7 @@ Inductive outcome := OOk (l : list ocell) | ORaise (e : exn).
 
 Definition cell_matches (c : cell) (o : ocell) : bool :=
   match c, o with
-  | CVal v, OVal w => mval_eqb (norm v) w
+  | CVal v, OVal w => mval_eqb v w || mval_eqb (norm v) w     (* norm only matters for repeated keys *)
   | CDate _, ODate => true
   | _, _ => false
   end.
